@@ -292,6 +292,10 @@ struct Run<T: Ty> {
 	landed: bool,
 	finished_flags: u32,
 	positive_easing: bool,
+	/// the tween in flight starts immediately (so its timing does not depend on the update partition)
+	immediate: bool,
+	/// documented-formula reference for the tween in flight: (easing, duration s, elapsed s)
+	formula: Option<(kira::Easing, f64, f64)>,
 }
 
 fn exec_typed<T: Ty>(case: &[String], first: usize, out: &mut Out, ids: &Ids, info_state: &mut InfoState) {
@@ -318,6 +322,8 @@ fn exec_typed<T: Ty>(case: &[String], first: usize, out: &mut Out, ids: &Ids, in
 					landed: false,
 					finished_flags: 0,
 					positive_easing: true,
+					immediate: true,
+					formula: None,
 				});
 			}
 			"set" => {
@@ -331,6 +337,12 @@ fn exec_typed<T: Ty>(case: &[String], first: usize, out: &mut Out, ids: &Ids, in
 				};
 				r.landed = false;
 				r.finished_flags = 0;
+				r.immediate = tw.start_time == StartTime::Immediate;
+				r.formula = if r.immediate && r.tween_target.is_some() {
+					Some((tw.easing, tw.duration.as_secs_f64(), 0.0))
+				} else {
+					None
+				};
 				r.p.set(v, tw);
 				out.put("ok");
 			}
@@ -339,7 +351,22 @@ fn exec_typed<T: Ty>(case: &[String], first: usize, out: &mut Out, ids: &Ids, in
 				let dt = p64(tok[1]);
 				let info = info_state.build();
 				let before = r.p.value().show();
+				// shadow copy updated with the same time split in two: partition independence (C06)
+				let mut shadow = r.p.clone();
+				shadow.update(dt * 0.5, &info);
+				shadow.update(dt * 0.5, &info);
 				let fin = r.p.update(dt, &info);
+				if r.immediate {
+					if let (Some(a), Some(b)) = (r.p.value().scalar(), shadow.value().scalar()) {
+						let scale = match (r.tween_start, r.tween_target) {
+							(Some(s), Some(t)) => (s - t).abs().max(a.abs()),
+							_ => a.abs(),
+						};
+						if (a - b).abs() > 1e-5 * scale.max(1e-12) {
+							out.oracle_fail("partition_independent", l);
+						}
+					}
+				}
 				out.put(format!(
 					"{} {} {}",
 					r.p.value().show(),
@@ -347,6 +374,21 @@ fn exec_typed<T: Ty>(case: &[String], first: usize, out: &mut Out, ids: &Ids, in
 					fin as u8
 				));
 				// --- oracles (C06) ---
+				// follows start + (target - start) * ease(elapsed / duration) while the tween runs
+				if let (Some((easing, dur, elapsed)), Some(st), Some(tg), Some(v)) =
+					(r.formula.as_mut(), r.tween_start, r.tween_target, r.p.value().scalar())
+				{
+					*elapsed += dt;
+					if *elapsed < *dur * (1.0 - 1e-9) && !fin && dt >= 0.0 {
+						let want = st + (tg - st) * kira::verif_hooks::easing_apply(*easing, *elapsed / *dur);
+						let tol = 1e-5 * (st - tg).abs().max(want.abs()).max(1e-12) + 2e-9;
+						if (v - want).abs() > tol {
+							out.oracle_fail("follows_easing", l);
+						}
+					} else {
+						r.formula = None;
+					}
+				}
 				if r.p.previous_value().show() != before {
 					out.oracle_fail("chunk_continuity", l);
 				}
